@@ -277,6 +277,13 @@ func (m *MTProto) startReadingResponses(ctx context.Context) {
 				return
 			default:
 				err := m.readMsg()
+				var broken transport.ErrBroken
+				if errors.As(err, &broken) {
+					// a read timed out or failed half way: nothing more can be read from this connection
+					// (a further read would wait forever). Replace it, as after an orderly close
+					m.warnError(broken)
+					err = io.EOF
+				}
 				switch err {
 				case nil: // skip
 				case context.Canceled:
